@@ -22,7 +22,10 @@
 //     loop state), `return`; expressions: integer arithmetic (`/` `%` by non-zero constants), comparisons, `&&` `||`,
 //     `len`, checked `xs[i]`, `float64(i)`, `int(f)`, float `+ - * /` and constants as in `funcn`, `e != nil` of an error local.
 //
-//   - `return F(args)` of an abstract callee with the function's own result types `(T, error)`: the field yields `Option S`.
+//   - `return F(args)` of an abstract callee with the function's own result types `(T, error)`: the field yields `Option S`;
+//   - a function with ONE object result (`*T`, no error) is `Res S`: `return <object expression>`, where an object expression is a
+//     local object or a call of an abstract callee that yields an object; a method of a call result `F(…).M(…)` is the field `M`
+//     applied to that result (a call chain is a composition of fields).
 //
 // Hook: one `case "funce"` in main.go.  Gate: module names starting with `K19b` / `K16c` (`kfinishOn`).
 package main
@@ -52,6 +55,7 @@ type kfinCtx struct {
 	tmp      int
 	depth    int // loop nesting
 	usesS    bool
+	single   bool // the function returns one object (no error): `Res S`
 }
 
 func (c *kfinCtx) fail(f string, a ...interface{}) error { return fmt.Errorf(f, a...) }
@@ -381,6 +385,60 @@ func (c *kfinCtx) expr(ex ast.Expr, pre *[]kfinBind) (string, error) {
 	return "", c.fail("expression form %T", ex)
 }
 
+// objExpr: an expression whose value is an object of the abstract type S: a local object, or a call of an abstract callee
+// that returns one (a method of a call result `F(…).M(…)` passes that result on as the first argument of the field `M`)
+func (c *kfinCtx) objExpr(ex ast.Expr, pre *[]kfinBind) (string, error) {
+	switch x := ex.(type) {
+	case *ast.ParenExpr:
+		return c.objExpr(x.X, pre)
+	case *ast.Ident:
+		if c.locals[x.Name] == "S" {
+			return x.Name, nil
+		}
+	case *ast.CallExpr:
+		if !kfinIsObject(c.p.TypesInfo.TypeOf(x)) {
+			return "", c.fail("call does not yield an object")
+		}
+		field, recvArg := "", ""
+		if sel, ok := x.Fun.(*ast.SelectorExpr); ok {
+			if inner, ok := sel.X.(*ast.CallExpr); ok {
+				r, err := c.objExpr(inner, pre)
+				if err != nil {
+					return "", err
+				}
+				field, recvArg = sel.Sel.Name, r
+			}
+		}
+		if field == "" {
+			f, recv, err := c.callee(x)
+			if err != nil {
+				return "", err
+			}
+			field, recvArg = f, recv
+		}
+		args, typs, slices, err := c.callArgs(x, pre)
+		if err != nil {
+			return "", err
+		}
+		if len(slices) > 0 {
+			return "", c.fail("object-valued call with a slice argument")
+		}
+		if recvArg != "" {
+			args = append([]string{recvArg}, args...)
+			typs = append([]string{"S"}, typs...)
+		}
+		c.usesS = true
+		if err := c.envField(field, strings.Join(append(typs, "S"), " → ")); err != nil {
+			return "", err
+		}
+		if len(args) == 0 {
+			return "env." + field, nil
+		}
+		return "(env." + field + " " + strings.Join(args, " ") + ")", nil
+	}
+	return "", c.fail("object expression %T", ex)
+}
+
 func kfinInt(n int64) string {
 	if n < 0 {
 		return fmt.Sprintf("(%d)", n)
@@ -506,6 +564,21 @@ func (c *kfinCtx) retNone() string {
 
 // isErrReturn: `return nil, <non-nil>` (true) / `return v, nil` (false, v)
 func (c *kfinCtx) retStmt(r *ast.ReturnStmt, lvl int) (string, error) {
+	if c.single {
+		if len(r.Results) != 1 {
+			return "", c.fail("return with %d results", len(r.Results))
+		}
+		var pre []kfinBind
+		v, err := c.objExpr(r.Results[0], &pre)
+		if err != nil {
+			return "", err
+		}
+		ret := ".ok"
+		if c.depth > 0 {
+			ret = ".ret"
+		}
+		return c.flush(pre, lvl) + fmt.Sprintf("%s%s %s\n", kfinInd(lvl), ret, v), nil
+	}
 	if len(r.Results) == 1 {
 		if call, ok := r.Results[0].(*ast.CallExpr); ok {
 			if tup, ok := c.p.TypesInfo.TypeOf(call).(*types.Tuple); ok && tup.Len() == 2 && kfinIsObject(tup.At(0).Type()) &&
@@ -904,7 +977,11 @@ func (c *kfinCtx) forStmt(x *ast.ForStmt, lvl int) (string, error) {
 	if c.depth > 0 {
 		then = "thenC"
 	}
-	fmt.Fprintf(&sb, "%s) : Gzx.GoM.Ctl (%s) (Option S))) %d (Gzx.GoM.tripUp %s %s %d) %s %s).%s fun st =>\n", kfinInd(lvl+2), sty, step, a, b, step, a,
+	rty := "Option S"
+	if c.single {
+		rty = "S"
+	}
+	fmt.Fprintf(&sb, "%s) : Gzx.GoM.Ctl (%s) (%s))) %d (Gzx.GoM.tripUp %s %s %d) %s %s).%s fun st =>\n", kfinInd(lvl+2), sty, rty, step, a, b, step, a,
 		kfinTuple(state), then)
 	for i, n := range state {
 		fmt.Fprintf(&sb, "%slet %s := %s\n", kfinInd(lvl), n, kfinProj(i, len(state)))
@@ -946,9 +1023,11 @@ func kfinishGenFuncE(p *packages.Package, e entry) (string, error) {
 		}
 	}
 	res := fd.Type.Results
-	if res == nil || len(res.List) != 2 || !kfinIsObject(p.TypesInfo.TypeOf(res.List[0].Type)) ||
+	if res != nil && len(res.List) == 1 && len(res.List[0].Names) <= 1 && kfinIsObject(p.TypesInfo.TypeOf(res.List[0].Type)) {
+		c.single = true
+	} else if res == nil || len(res.List) != 2 || !kfinIsObject(p.TypesInfo.TypeOf(res.List[0].Type)) ||
 		!types.Identical(p.TypesInfo.TypeOf(res.List[1].Type), types.Universe.Lookup("error").Type()) {
-		return "", fmt.Errorf("results are not (object, error)")
+		return "", fmt.Errorf("results are not (object, error) / one object")
 	}
 	body, err := c.block(fd.Body.List, 1, "")
 	if err != nil {
@@ -961,8 +1040,12 @@ func kfinishGenFuncE(p *packages.Package, e entry) (string, error) {
 		fmt.Fprintf(&sb, "  %s : %s\n", n, c.envTypes[n])
 	}
 	fmt.Fprintf(&sb, "\n/-- translated from %s.%s (abstract callees: %s) -/\n", e.pkg, e.name, strings.Join(c.envNames, ", "))
-	fmt.Fprintf(&sb, "def %s {F S : Type} (ops : Gzx.GoM.NumOps F) (env : %s_Env F S) %s : Gzx.Res (Option S) :=\n", e.lean, e.lean,
-		strings.Join(params, " "))
+	rty := "Option S"
+	if c.single {
+		rty = "S"
+	}
+	fmt.Fprintf(&sb, "def %s {F S : Type} (ops : Gzx.GoM.NumOps F) (env : %s_Env F S) %s : Gzx.Res (%s) :=\n", e.lean, e.lean,
+		strings.Join(params, " "), rty)
 	sb.WriteString(body)
 	return sb.String(), nil
 }
